@@ -231,7 +231,10 @@ Proof.
 Qed.
 
 Lemma bal_abort_function_call n s : bal (fst (abort_function_call n s)) = bal s.
-Proof. unfold abort_function_call. crush. Qed.
+Proof. unfold abort_function_call, mark_aborted. crush. Qed.
+
+Lemma bal_mark_aborted n s : bal (mark_aborted n s) = bal s.
+Proof. unfold mark_aborted. crush. Qed.
 
 Lemma bal_reply_or_unexpected m n s : bal (fst (reply_or_unexpected m n s)) = bal s.
 Proof. unfold reply_or_unexpected. crush. Qed.
@@ -263,7 +266,8 @@ Proof.
     + destruct (queue s) as [|[q ow] r] eqn:Q; [reflexivity|].
       rewrite (bal_pop _ _ _ _ Q), bal_resolve. reflexivity.
   - destruct (phase s); try reflexivity.
-    rewrite (surjective_pairing (abort_function_call n s)), bal_after_iter. apply bal_abort_function_call.
+    + rewrite (surjective_pairing (abort_function_call n s)), bal_after_iter. apply bal_abort_function_call.
+    + apply bal_mark_aborted.
   - destruct (phase s); try reflexivity; apply bal_finish.
   - destruct (phase s); try reflexivity.
     + unfold ok. rewrite bal_after_iter. reflexivity.
@@ -353,7 +357,16 @@ Proof.
 Qed.
 
 Lemma phase_abort_function_call n s : phase (fst (abort_function_call n s)) = phase s.
-Proof. unfold abort_function_call. pcrush. Qed.
+Proof. unfold abort_function_call, mark_aborted. pcrush. Qed.
+
+Lemma phase_mark_aborted n s : phase (mark_aborted n s) = phase s.
+Proof. unfold mark_aborted. pcrush. Qed.
+
+Lemma flush_mark_aborted n s : flush (mark_aborted n s) = flush s.
+Proof.
+  unfold mark_aborted, takem. destruct (lookup _ _ _); [|reflexivity].
+  destruct (take _ _ _) as [x l]. destruct (ewo x); reflexivity.
+Qed.
 
 Lemma phase_handle_message m s : phase (fst (handle_message m s)) = phase s.
 Proof.
@@ -407,8 +420,9 @@ Proof.
     + destruct (queue s) as [|[q ow] r] eqn:Q; auto.
       unfold wf in *. rewrite phase_resolve. cbn [phase set_queue]. rewrite P in *. destruct ow; exact W.
   - destruct (phase s) eqn:P; auto.
-    rewrite (surjective_pairing (abort_function_call n s)). apply wf_after_iter. left.
-    now rewrite phase_abort_function_call.
+    + rewrite (surjective_pairing (abort_function_call n s)). apply wf_after_iter. left.
+      now rewrite phase_abort_function_call.
+    + unfold wf in *. rewrite phase_mark_aborted, P, flush_mark_aborted. rewrite P in W. exact W.
   - destruct (phase s) eqn:P; auto using wf_finish.
   - destruct (phase s) eqn:P; auto.
     + apply wf_after_iter. left. exact P.
@@ -501,7 +515,7 @@ Proof.
     destruct (flush s) eqn:Fl; cbn; rewrite ?Fl; auto.
   - rewrite W. destruct (queue s) as [|[q ow] r]; auto.
     rewrite phase_resolve. destruct ow; auto.
-  - rewrite W. auto.
+  - rewrite W, phase_mark_aborted, flush_mark_aborted. auto.
   - unfold drain_head. cbn [phase set_flush flush]. rewrite P, !orb_false_r.
     destruct w; cbn; auto.
 Qed.
@@ -618,7 +632,7 @@ Proof.
         unfold drain_head. cbn [phase set_phase flush orb]. destruct (flush s); [left; now exists false|right; now left].
       - right. right. now exists e'.
       - left. exists w. destruct (queue s) as [|[q ow] r0]; auto. now rewrite phase_resolve.
-      - left. now exists w.
+      - left. exists w. now rewrite phase_mark_aborted.
       - right. right. now exists e'.
       - unfold drain_head. cbn [phase set_flush flush]. rewrite P, orb_false_r.
         destruct w; [left; now exists true|right; now left]. }
@@ -710,7 +724,10 @@ Proof.
     unfold send_conv, req_simple; ncrush.
 Qed.
 Lemma nextw_abort_function_call n s : nextw s <= nextw (fst (abort_function_call n s)).
-Proof. unfold abort_function_call. ncrush. Qed.
+Proof. unfold abort_function_call, mark_aborted. ncrush. Qed.
+
+Lemma nextw_mark_aborted n s : nextw s <= nextw (mark_aborted n s).
+Proof. unfold mark_aborted. ncrush. Qed.
 Lemma nextw_handle_message m s : nextw s <= nextw (fst (handle_message m s)).
 Proof.
   destruct m; cbn [handle_message]; try (cbn; lia);
@@ -744,7 +761,8 @@ Proof.
       rewrite nextw_begin_shutdown, nextw_resolve. cbn. lia.
     + destruct (queue s) as [|[q ow] r] eqn:Q; [lia|]. rewrite nextw_resolve. cbn. lia.
   - destruct (phase s); try lia.
-    rewrite (surjective_pairing (abort_function_call n s)), nextw_after_iter. apply nextw_abort_function_call.
+    + rewrite (surjective_pairing (abort_function_call n s)), nextw_after_iter. apply nextw_abort_function_call.
+    + apply nextw_mark_aborted.
   - destruct (phase s); cbn; lia.
   - destruct (phase s); try lia.
     + unfold ok. rewrite nextw_after_iter. cbn. lia.
